@@ -266,6 +266,13 @@ func (c *conn) handleMutate(in *inEnvelope) error {
 	c.mu.Lock()
 	defer c.mu.Unlock()
 
+	// A mutation is tracked in c.subscriptions under its id while it runs. Using the
+	// id of a live subscription would replace that subscription's entry: its rerunner
+	// could then never be stopped, neither by unsubscribe nor when the connection closes.
+	if _, ok := c.subscriptions[id]; ok {
+		return NewSafeError("duplicate subscription")
+	}
+
 	tags := map[string]string{"url": c.url, "query": mutate.Query, "queryVariables": mustMarshalJson(mutate.Variables), "id": id}
 
 	query, err := Parse(mutate.Query, mutate.Variables)
